@@ -5,7 +5,7 @@ from ..nf import Rat, C
 from ..source import Unsupported, AnchorError
 from ..xlate import Interp, Obj, ListV, DictV, Raised
 from .common import same, show, sub
-from .rxnfix import reaction, state_sum, get_public
+from .rxnfix import reaction, state_sum, get_public, species, make_reaction
 
 CLASSES = (('Reaction', 'pmutt.reaction.Reaction'),
            ('ChemkinReaction', 'pmutt.reaction.ChemkinReaction'),
@@ -13,6 +13,8 @@ CLASSES = (('Reaction', 'pmutt.reaction.Reaction'),
 QUANT = ('q', 'CvoR', 'CpoR', 'UoRT', 'HoRT', 'SoR', 'FoRT', 'GoRT', 'EoRT')
 CLAMPED = {('ChemkinReaction', 'HoRT'), ('ChemkinReaction', 'GoRT'),
            ('SurfaceReaction', 'HoRT'), ('SurfaceReaction', 'GoRT')}
+UNIT_GETTERS = (('E', 'EoRT', True), ('H', 'HoRT', True), ('G', 'GoRT', True), ('U', 'UoRT', True),
+                ('F', 'FoRT', True), ('S', 'SoR', False), ('Cp', 'CpoR', False), ('Cv', 'CvoR', False))
 STATES = (('reactants', 'r'), ('products', 'p'), ('transition state', 't'), ('transition_state', 't'), ('TS', 't'))
 
 
@@ -28,6 +30,154 @@ def expected_delta(I, rxn, method, kw, rev, act):
     a = expected_state(I, rxn, ini, method, kw)
     b = expected_state(I, rxn, fin, method, kw)
     return b / a if method == 'get_q' else b - a
+
+
+def named_reaction(I, repo, qual):
+    """H2 + H2O + PT(S) = [H2O2(S)] = H2O(S) + h2o + PT(B): species whose names are stems, prefixes and case variants
+    of one another, gas and surface phases, a catalyst site (built by its public constructor) whose bulk species takes
+    part; three species per side; symbolic coefficients"""
+    D = I.D
+    site = I.construct(repo.cls('pmutt.chemkin.CatSite'), [],
+                       {'name': 'PT(S)', 'site_density': D.sym('sden'), 'density': D.sym('rho'),
+                        'bulk_specie': 'PT(B)'}, name='site')
+    if isinstance(site, Raised):
+        raise Unsupported('CatSite(...) raised %s' % site.exc)
+    sp = {}
+    for nm, ph, st in (('H2', 'G', None), ('H2O', 'G', None), ('PT(S)', 'S', site), ('H2O2(S)', 'S', site),
+                       ('H2O(S)', 'S', site), ('h2o', 'G', None), ('PT(B)', 'S', site)):
+        sp[nm] = species(I, nm, ph, st)
+    sides = {'reactants': ('H2', 'H2O', 'PT(S)'), 'transition_state': ('H2O2(S)',),
+             'products': ('H2O(S)', 'h2o', 'PT(B)')}
+    nu = {nm: D.sym('nu<%s>' % nm) for nm in sp}
+    rxn = make_reaction(I, repo, qual, [sp[x] for x in sides['reactants']], [nu[x] for x in sides['reactants']],
+                        [sp[x] for x in sides['products']], [nu[x] for x in sides['products']],
+                        [sp[x] for x in sides['transition_state']], [nu[x] for x in sides['transition_state']],
+                        name='rxn_named')
+    return rxn, sp, nu, sides
+
+
+def routed_state(I, fixture, which, method, shared, blocks):
+    """reference: every species of the state at the shared conditions, overridden by the block that carries exactly
+    its own name (and by no other)"""
+    rxn, sp, nu, sides = fixture
+    tot = C(0)
+    for nm in sides[which]:
+        kw = dict(shared)
+        kw.update(blocks.get(nm, {}))
+        o = sp[nm]
+        x = o.opaque_methods[method](I, o, [], {k: v for k, v in kw.items() if k in o.opaque_params[method]})
+        tot = tot + x * nu[nm]
+    return tot
+
+
+def routed_delta(I, fixture, method, shared, blocks, rev=False, act=False):
+    ini = 'products' if rev else 'reactants'
+    fin = 'transition_state' if act else ('reactants' if rev else 'products')
+    return routed_state(I, fixture, fin, method, shared, blocks) - routed_state(I, fixture, ini, method, shared, blocks)
+
+
+def as_kwargs(order, shared, blocks):
+    """keyword arguments in the order the caller wrote them; blocks as fresh dictionaries"""
+    out = {}
+    for k in order:
+        out[k] = shared[k] if k in shared else DictV(dict(blocks[k[:-len('_kwargs')]]))
+    return out
+
+
+def named(run, repo, cname, qual, ci):
+    """steps 6-8: a reaction whose species have related names, surface phases and a catalyst site"""
+    I = Interp(repo)
+    D = I.D
+    T, P = D.sym('T'), D.sym('P')
+    fx = named_reaction(I, repo, qual)
+    rxn, sp, nu, sides = fx
+    kw = {'T': T, 'P': P}
+    n = 0
+    owner, fn = repo.find_method(ci, 'get_state_quantity')
+    # 6. Hess's law does not depend on what the species are: surface species, a site, the bulk species of the site
+    for X in QUANT:
+        m = 'get_' + X
+        if X == 'q':
+            continue                      # products of powers: decided on the generic reaction (step 1)
+        for st, which in (('reactants', 'reactants'), ('products', 'products'), ('TS', 'transition_state')):
+            got = I.call_method(rxn, 'get_%s_state' % X, [], dict(kw, state=st))
+            kwe = dict(kw, include_ZPE=False) if X == 'EoRT' else kw
+            want = routed_state(I, fx, which, m, kwe, {})
+            run.check(same(got, want), 'REF.state', '%s.get_%s_state' % (cname, X), 'surface species state:' + st,
+                      'with surface species and the bulk species of their catalyst site among the %s the state '
+                      'quantity is not the stoichiometry-weighted sum over all of them: %s' % (st, show(got, 200)),
+                      owner.module, fn)
+            n += 1
+        for rev, act in ((False, False), (True, True)):
+            got = I.call_method(rxn, 'get_delta_' + X, [], dict(kw, rev=rev, act=act))
+            want = routed_delta(I, fx, m, kw, {}, rev, act)
+            run.check(same(got, want), 'REF.delta', '%s.get_delta_%s' % (cname, X),
+                      'surface species rev=%s act=%s' % (rev, act),
+                      'with surface species and the bulk species of their catalyst site the change is not final '
+                      'minus initial over all species: %s' % show(got, 200), owner.module, fn)
+            n += 1
+    Kf = I.call_method(rxn, 'get_Keq', [], dict(kw))
+    run.check(same(Kf, D.exp(-routed_delta(I, fx, 'get_GoRT', kw, {}))), 'REF.Keq', cname + '.get_Keq',
+              'surface species K=exp(-dG/RT)', 'equilibrium constant is %s, not exp(-delta G/RT) over all species'
+              % show(Kf, 200), owner.module, fn)
+    n += 1
+    # 7. blocks are addressed by the exact name: a block for every species at once (each with its own pressure), and
+    #    one block alone (nobody else may pick it up: not the species whose name is a prefix of it, not the one whose
+    #    name it is a prefix or the stem of, not the one that differs in case)
+    every = {nm: {'P': D.sym('P<%s>' % nm)} for nm in sp}
+    cases = [('a block for every species', every)]
+    for nm in ('H2', 'H2O', 'H2O(S)', 'h2o', 'H2O2(S)', 'PT(B)'):
+        cases.append(('a block for %s alone' % nm, {nm: {'P': D.sym('P2'), 'T': D.sym('T2')}}))
+    for label, blocks in cases:
+        order = ['T', 'P'] + [b + '_kwargs' for b in blocks]
+        for st, which in (('reactants', 'reactants'), ('products', 'products'), ('TS', 'transition_state')):
+            got = I.call_method(rxn, 'get_HoRT_state', [], dict(as_kwargs(order, kw, blocks), state=st))
+            want = routed_state(I, fx, which, 'get_HoRT', kw, blocks)
+            run.check(same(got, want), 'DATAFLOW.species-kwargs', cname + '.get_state_quantity',
+                      'related names: %s, state:%s' % (label, st),
+                      'species H2, H2O, H2O(S), h2o, H2O2(S), PT(S), PT(B): conditions addressed to one species by '
+                      'its name must reach that species and no other: %s' % show(got, 300), owner.module, fn)
+            n += 1
+        got = I.call_method(rxn, 'get_delta_GoRT', [], as_kwargs(order, kw, blocks))
+        want = routed_delta(I, fx, 'get_GoRT', kw, blocks)
+        run.check(same(got, want), 'DATAFLOW.species-kwargs', cname + '.get_delta_GoRT', 'related names: ' + label,
+                  'conditions addressed to one species by its name must reach that species and no other: %s'
+                  % show(got, 300), owner.module, fn)
+        got = I.call_method(rxn, 'get_Keq', [], as_kwargs(order, kw, blocks))
+        run.check(same(got, D.exp(-want)), 'DATAFLOW.species-kwargs', cname + '.get_Keq', 'related names: ' + label,
+                  'conditions addressed to one species by its name must reach that species and no other: %s'
+                  % show(got, 300), owner.module, fn)
+        n += 2
+    # 8. the order in which the caller writes his keyword arguments is not part of the contract: a block wins over
+    #    the shared condition of the same name wherever it stands
+    blocks = {'H2O': {'T': D.sym('T2'), 'P': D.sym('P2')}}
+    wantG = routed_delta(I, fx, 'get_GoRT', kw, blocks)
+    wantH = routed_state(I, fx, 'reactants', 'get_HoRT', kw, blocks)
+    for order in (('H2O_kwargs', 'T', 'P'), ('T', 'H2O_kwargs', 'P'), ('T', 'P', 'H2O_kwargs')):
+        key = 'keyword order: ' + ', '.join(order)
+        why = ('written as (%s) the block T=T2, P=P2 addressed to H2O must win over the shared T, P for H2O and '
+               'for nobody else: %%s' % ', '.join(order))
+        got = I.call_method(rxn, 'get_HoRT_state', [], dict(as_kwargs(order, kw, blocks), state='reactants'))
+        run.check(same(got, wantH), 'DATAFLOW.species-kwargs', cname + '.get_state_quantity', key,
+                  why % show(got, 300), owner.module, fn)
+        got = I.call_method(rxn, 'get_delta_GoRT', [], as_kwargs(order, kw, blocks))
+        run.check(same(got, wantG), 'DATAFLOW.species-kwargs', cname + '.get_delta_GoRT', key,
+                  why % show(got, 300), owner.module, fn)
+        got = I.call_method(rxn, 'get_Keq', [], as_kwargs(order, kw, blocks))
+        run.check(same(got, D.exp(-wantG)), 'DATAFLOW.species-kwargs', cname + '.get_Keq', key,
+                  why % show(got, 300), owner.module, fn)
+        n += 3
+    # the getters with an explicit T: the pressure block before and after the shared pressure
+    blocks = {'H2O': {'P': D.sym('P2')}}
+    wantS = routed_delta(I, fx, 'get_SoR', kw, blocks) * D.sym('kb') * D.sym('Na')
+    for order in (('H2O_kwargs', 'T', 'P'), ('T', 'H2O_kwargs', 'P'), ('T', 'P', 'H2O_kwargs')):
+        got = I.call_method(rxn, 'get_delta_S', [], dict(as_kwargs(order, kw, blocks), units='J/mol/K'))
+        run.check(same(got, wantS), 'DATAFLOW.species-kwargs', cname + '.get_delta_S',
+                  'keyword order: ' + ', '.join(order),
+                  'written as (%s) the block P=P2 addressed to H2O must win over the shared P for H2O and for '
+                  'nobody else: %s' % (', '.join(order), show(got, 300)), owner.module, fn)
+        n += 1
+    return n
 
 
 def check(run, repo):
@@ -116,17 +266,22 @@ def check(run, repo):
                               'activation quantity is not transition state minus %s: %s'
                               % ('products' if rev else 'reactants', show(got, 200)), owner.module, fn)
                     n += 1
-        # 3b. the same law for the values with units (J/mol): state value = sum nu_i * species value, change = final
-        #     minus initial, under every option the getter accepts (zero-point energy for E)
+        # 3b. the same law for the values with units: state value = sum nu_i * species value, change = final
+        #     minus initial, under every option the getter accepts (zero-point energy for E).  The caller asks the
+        #     state values, the change and the activation quantity in one unit of his choice: J/mol (every conversion
+        #     factor is 1), a second molar unit and - thorough tier - a unit per molecule
         Rj = D.sym('kb') * D.sym('Na')
-        for Xd, Xn, energy in (('E', 'EoRT', True), ('H', 'HoRT', True), ('G', 'GoRT', True), ('U', 'UoRT', True),
-                               ('F', 'FoRT', True), ('S', 'SoR', False), ('Cp', 'CpoR', False), ('Cv', 'CvoR', False)):
+        unit_list = ('J/mol', 'kJ/mol') + (('kcal/mol', 'eV') if run.tier == 'thorough' else ())
+        for (Xd, Xn, energy), ubase in (((a_, b_, c_), u_) for a_, b_, c_ in UNIT_GETTERS for u_ in unit_list):
             mname = 'get_%s_state' % Xd
             if repo.find_method(ci, mname, missing_ok=True) is None:
                 continue
             owner, fn = repo.find_method(ci, mname)
-            units = 'J/mol' if energy else 'J/mol/K'
-            fac = Rj * T if energy else Rj
+            units = ubase if energy else ubase + '/K'
+            # R in the unit asked for: kb (per molecule) times the unit factor, times Avogadro for molar units
+            Ru = D.sym('kb') * I.unit(ubase) * (D.sym('Na') if ubase.endswith('/mol') else C(1))
+            fac = Ru * T if energy else Ru
+            utag = 'units' if ubase == 'J/mol' else 'units=%s' % units
             for zpe in ((False, True) if Xd == 'E' else (None,)):
                 opt = {} if zpe is None else {'include_ZPE': zpe}
                 for st, which in (('reactants', 'reactants'), ('TS', 'transition_state')):
@@ -134,7 +289,7 @@ def check(run, repo):
                     kwe = dict(kw, include_ZPE=bool(zpe)) if Xd == 'E' else kw
                     want = I.binop('*', expected_state(I, rxn, which, 'get_' + Xn, kwe), fac)
                     run.check(same(got, want), 'REF.state', '%s.%s' % (cname, mname),
-                              'units state:%s%s' % (st, '' if zpe is None else ' include_ZPE=%s' % zpe),
+                              '%s state:%s%s' % (utag, st, '' if zpe is None else ' include_ZPE=%s' % zpe),
                               'state quantity in %s is not the stoichiometry-weighted sum of the species values '
                               'under the same options: %s' % (units, show(got, 200)), owner.module, fn)
                     n += 1
@@ -147,10 +302,37 @@ def check(run, repo):
                     kwe = dict(kw, include_ZPE=bool(zpe)) if Xd == 'E' else kw
                     want = I.binop('*', expected_delta(I, rxn, 'get_' + Xn, kwe, rev, act), fac)
                     run.check(same(got, want), 'REF.delta', '%s.%s' % (cname, dname),
-                              'units rev=%s act=%s%s' % (rev, act, '' if zpe is None else ' include_ZPE=%s' % zpe),
+                              '%s rev=%s act=%s%s' % (utag, rev, act, '' if zpe is None else ' include_ZPE=%s' % zpe),
                               'change in %s is not final minus initial under the same options: %s'
                               % (units, show(got, 200)), owner.module, fn)
                     n += 1
+            # 3c. the activation quantity with units of the unclamped getters: transition state minus the initial
+            #     state of the direction asked for, at the conditions given (T, P and a block addressed to one species)
+            aname = 'get_%s_act' % Xd
+            if Xd == 'E' or (cname, Xn) in CLAMPED or repo.find_method(ci, aname, missing_ok=True) is None:
+                continue
+            owner, fn = repo.find_method(ci, aname)
+            run.fn('%s.%s' % (owner.qual, aname))
+            for rev in (False, True):
+                got = I.call_method(rxn, aname, [], dict(kw, rev=rev, units=units))
+                want = I.binop('*', expected_delta(I, rxn, 'get_' + Xn, kw, rev, True), fac)
+                run.check(same(got, want), 'REF.act', '%s.%s' % (cname, aname), '%s rev=%s' % (utag, rev),
+                          'activation quantity in %s at (T, P) is not transition state minus %s at (T, P): %s'
+                          % (units, 'products' if rev else 'reactants', show(got, 200)), owner.module, fn)
+                n += 1
+            if ubase == 'J/mol':
+                got = I.call_method(rxn, aname, [], dict(kw, units=units, r0_kwargs=DictV({'P': P2})))
+                want = C(0)
+                for grp, sgn in ((ts, 1), (rs, -1)):
+                    nus = get_public(I, rxn, 'transition_state_stoich' if sgn == 1 else 'reactants_stoich').items
+                    for sp, nu_ in zip(grp, nus):
+                        x = sp.opaque_methods['get_' + Xn](I, sp, [], {'T': T, 'P': P2 if sp is rs[0] else P})
+                        want = want + x * nu_ * C(sgn)
+                want = I.binop('*', want, fac)
+                run.check(same(got, want), 'DATAFLOW.species-kwargs', '%s.%s' % (cname, aname), 'species block',
+                          'conditions addressed to species r0 must reach r0 (and only r0) in the activation quantity '
+                          'with units: %s' % show(got, 240), owner.module, fn)
+                n += 1
         # 4. equilibrium constant
         owner, fn = repo.find_method(ci, 'get_Keq')
         run.fn(owner.qual + '.get_Keq')
@@ -197,6 +379,7 @@ def check(run, repo):
             run.check(list(blk.d) == ['P'] and blk.d['P'] is P2, 'EFFECT.caller-dict', '%s.%s' % (cname, meth),
                       'nested blocks', 'a caller-supplied per-species dictionary was modified', owner.module, fn)
         n += 5
+        n += named(run, repo, cname, qual, ci)
     run.floor('C08 instances', n, 250)
     network(run, repo)
 
@@ -251,6 +434,33 @@ MUTANTS = [
      'edits': [(R, 'return self.get_delta_FoRT(rev=rev, act=True, **kwargs)', 'return self.get_delta_GoRT(rev=rev, act=True, **kwargs)')]},
     {'name': '_get_specie_kwargs pops from the nested block', 'expect': ('EFFECT.caller-dict', ''),
      'edits': [('pmutt/__init__.py', '        specie_kwargs.update(specie_specific_kwargs)', "        specie_kwargs.update(specie_specific_kwargs)\n        specie_specific_kwargs.pop('P', None)")]},
+    {'name': 'get_G_act hands on neither the pressure nor the species blocks', 'expect': ('REF.act', 'get_G_act'),
+     'edits': [(R, "        return self.get_GoRT_act(T=T, rev=rev, **kwargs)*T \\\n               *c.R('{}/K'.format(units))\n\n    def get_Keq(",
+                "        return self.get_delta_G(units=units, T=T, rev=rev, act=True)\n\n    def get_Keq(")]},
+    {'name': 'get_Cp_act drops the conditions', 'expect': ('REF.act', 'get_Cp_act'),
+     'edits': [(R, "        return self.get_delta_Cp(units=units, rev=rev, act=True, **kwargs)",
+                "        return self.get_delta_Cp(units=units, rev=rev, act=True)")]},
+    {'name': 'species blocks looked up by the name without its phase suffix',
+     'expect': ('DATAFLOW.species-kwargs', 'get_state_quantity'),
+     'edits': [(R, "            specie_kwargs = _get_specie_kwargs(specie.name, **kwargs)",
+                "            specie_kwargs = _get_specie_kwargs(\n                    str(specie.name).split('(')[0], **kwargs)")]},
+    {'name': 'species blocks matched by prefix', 'expect': ('DATAFLOW.species-kwargs', ''),
+     'edits': [('pmutt/__init__.py', "            if key == '{}_kwargs'.format(specie_name):",
+                "            if key.startswith(specie_name) and key.endswith('_kwargs'):")]},
+    {'name': 'species blocks matched without regard to case', 'expect': ('DATAFLOW.species-kwargs', ''),
+     'edits': [('pmutt/__init__.py', "            if key == '{}_kwargs'.format(specie_name):",
+                "            if key.lower() == '{}_kwargs'.format(specie_name).lower():")]},
+    {'name': 'get_delta_F converts the unit in the wrong direction', 'expect': ('REF.delta', 'get_delta_F'),
+     'edits': [(R, "        return self.get_delta_FoRT(rev=rev, T=T, act=act, **kwargs) * T * c.R(\n            '{}/K'.format(units))",
+                "        delta_F = self.get_delta_FoRT(rev=rev, T=T, act=act, **kwargs) \\\n            * T * c.R('J/mol/K')\n        return c.convert_unit(delta_F, initial=units, final='J/mol')")]},
+    {'name': 'the bulk species of a catalyst site is left out of the state sum', 'expect': ('REF.state', '_state'),
+     'edits': [(R, "            # Process the inputs and methods for each specie\n",
+                "            try:\n                if specie.name == specie.cat_site.bulk_specie:\n                    continue\n            except AttributeError:\n                pass\n            # Process the inputs and methods for each specie\n")]},
+    {'name': 'a species block only wins over shared conditions written before it',
+     'expect': ('DATAFLOW.species-kwargs', ''),
+     'edits': [('pmutt/__init__.py',
+                "    specie_kwargs = kwargs.copy()\n    # Remove any keys related to other species\n    for key in kwargs.keys():\n        if 'kwargs' in key:\n            temp_kwargs = specie_kwargs.pop(key, {})\n            if key == '{}_kwargs'.format(specie_name):\n                specie_specific_kwargs = temp_kwargs\n    # See if there was an entry for the specific species\n    try:\n        specie_kwargs.update(specie_specific_kwargs)\n    except (KeyError, TypeError, NameError):\n        pass\n",
+                "    specie_kwargs = {}\n    for key, val in kwargs.items():\n        if 'kwargs' not in key:\n            specie_kwargs[key] = val\n        elif key == '{}_kwargs'.format(specie_name):\n            try:\n                specie_kwargs.update(val)\n            except TypeError:\n                pass\n")]},
 ]
 EQUIV = [
     {'name': 'delta written as -(initial - final)',
